@@ -21,6 +21,8 @@
                    the container (temporary parent) leaves no trace in the state.
      AEstimate id  evaluate_area_for_error_estimates (split/extend benefits, parent estimates): no accumulator is touched
      AResetTotal   Integration.reset_result                  integral := 0
+     AFinalBegin   start of evaluate_final_combi: operation.reset_result(); refinement.value = 0 (the new-object marker is
+                   NOT touched); it is followed by APre / AEval of ALL areas, together = `reevaluate`
      AReinit       RefinementContainer.reinit_new_objects (recalculate_frequently): refinement.value := 0, every object
                    is marked new again - operation.integral is NOT reset by the code as it is
    Definitions only; proofs in Proofs/AccumProofs.v. *)
@@ -70,7 +72,8 @@ Section Accum.
   | ASide (id : Z) (x : V)
   | AEstimate (id : Z)
   | AResetTotal
-  | AReinit.
+  | AReinit
+  | AFinalBegin.
 
   Definition remove_one (s : astate) (id : Z) : astate :=
     let v := area_val id (st_areas s) in
@@ -94,6 +97,7 @@ Section Accum.
     | AEstimate _ => s
     | AResetTotal => mkA (st_areas s) (st_new s) vzero (st_cont s)
     | AReinit => mkA (st_areas s) (map fst (st_areas s)) (st_total s) vzero
+    | AFinalBegin => mkA (st_areas s) (st_new s) vzero vzero
     end.
 
   Definition apply_events (es : list aevent) (s : astate) : astate := fold_left apply_event es s.
@@ -142,7 +146,8 @@ Section Accum.
   | DRefine (removed added : list Z)
   | DEvaluateDW (xs : list V)
   | DSide (id : Z) (x : V)          (* side evaluation (apply_to_combi_result = False, no container) *)
-  | DEstimate (id : Z).             (* error-estimate evaluation *)
+  | DEstimate (id : Z)              (* error-estimate evaluation *)
+  | DFinalCombi (parts : parts_t).  (* public evaluate_final_combi() on the live object between two legs of a run *)
 
   Definition apply_step (clear : bool) (s : astate) (st : dstep) : astate :=
     match st with
@@ -151,7 +156,13 @@ Section Accum.
     | DEvaluateDW xs => evaluate_dw xs s
     | DSide id x => apply_event s (ASide id x)
     | DEstimate id => apply_event s (AEstimate id)
+    | DFinalCombi parts => reevaluate parts s
     end.
+
+  (* a re-evaluation from scratch that leaves every object marked new behind (seeded defect: reinit_new_objects instead of
+     refinement.value = 0 in evaluate_final_combi) *)
+  Definition final_combi_marks_new (parts : parts_t) (s : astate) : astate :=
+    let s' := reevaluate parts s in mkA (st_areas s') (map fst (st_areas s')) (st_total s') (st_cont s').
 
   Definition is_side (st : dstep) : bool := match st with DSide _ _ | DEstimate _ => true | _ => false end.
   (* the driver without its side evaluations *)
@@ -185,6 +196,8 @@ Arguments ASide {V}.
 Arguments AEstimate {V}.
 Arguments AResetTotal {V}.
 Arguments AReinit {V}.
+Arguments AFinalBegin {V}.
+Arguments DFinalCombi {V}.
 Arguments DEvaluate {V}.
 Arguments DRefine {V}.
 Arguments DEvaluateDW {V}.
